@@ -27,6 +27,10 @@ func init() {
 			"every cycle of every unbounded loop of the recursive-descent parser consumes a real (known non-EOF) token before it returns to the loop head, or leaves the loop (consume / consume-or-report summaries with and without a peeked token, report.HasErrors() edges). " +
 			"Not decided: absence of panics on arbitrary bytes, positions inside the input, print∘parse round-trip equality as values, limit accounting (value level), depth of recursion.",
 		Mutants: []Mutant{
+			{Name: "list types are parsed without the nesting guard (reverts part of the F61 fix)", File: "v2/pkg/astparser/parser.go", Rule: "C05-R11", Key: "recursion-cycle-is-bounded:Parser.ParseType",
+				Old: "func (p *Parser) ParseType() (ref int) {\n\tif !p.enterNested() {\n\t\treturn ast.InvalidRef\n\t}\n\tdefer p.leaveNested()\n", New: "func (p *Parser) ParseType() (ref int) {\n"},
+			{Name: "the nesting guard counts but never refuses (reverts part of the F61 fix)", File: "v2/pkg/astparser/parser.go", Rule: "C05-R11", Key: "recursion-cycle-is-bounded",
+				Old: "\tif p.nesting > maxNestingDepth {\n", New: "\tif p.nesting < 0 {\n"},
 			{Name: "keyword table reads the first byte before looking at the length (seeded change C05-22)", File: "v2/pkg/lexer/identkeyword/identkeyword.go", Rule: "C05-R9", Key: "KeywordFromLiteral/literal[0]-under-length-test",
 				Old: "func KeywordFromLiteral(literal []byte) IdentKeyword {\n\tswitch len(literal) {", New: "func KeywordFromLiteral(literal []byte) IdentKeyword {\n\tif c := literal[0]; c < 'd' || c > 'u' {\n\t\treturn UNDEFINED\n\t}\n\tswitch len(literal) {"},
 			{Name: "VariableDefinitionsBefore answers for the first operation that has variables (seeded change C05-21)", File: "v2/pkg/ast/ast_variable_definition.go", Rule: "C05-R10", Key: "VariableDefinitionsBefore/return-in-search-loop-follows-a-test-of-the-ref",
@@ -86,6 +90,7 @@ type progressConfig struct {
 }
 
 func runC05(r *fw.Run) {
+	defer c05ParserRecursionIsBounded(r)
 
 	// ---- R1 loop progress ------------------------------------------------------------------------
 	r.Rule("C05-R1", "every unbounded loop of the lexer, the tokenizer and the Cache-Control lexer/parser consumes input on each cycle back to its head and has an exit guarded by an end-of-input test")
@@ -1164,6 +1169,9 @@ func checkParserProgress(r *fw.Run, rule string) {
 	checkedRead := map[string]bool{"mustRead": true, "mustReadIdentKey": true, "mustReadExceptIdentKey": true, "mustReadOneOf": true}
 	mustC, mustP, mustE := map[*types.Func]bool{}, map[*types.Func]bool{}, map[*types.Func]bool{}
 	mustCne, mustPne := map[*types.Func]bool{}, map[*types.Func]bool{} // the same when the function is entered with NE (the caller peeked)
+	// falseE: a boolean parser method whose every `return false` has an error in the report (the nesting guard: refusing
+	// reports). On the false edge of a call of such a method the caller knows E.
+	falseE := map[*types.Func]bool{}
 
 	type fnState struct {
 		peekVars map[types.Object]bool // locals holding the peeked keyword
@@ -1274,6 +1282,11 @@ func checkParserProgress(r *fw.Run, rule string) {
 				// report.HasErrors()
 				if c, ok := e.(*ast.CallExpr); ok {
 					fn := fw.Callee(info, c)
+					if fn != nil && !branch && falseE[fn] {
+						st.Set("E")
+						st.Set("P")
+						return
+					}
 					if fn != nil && fn.Name() == "HasErrors" && fn.Pkg() != nil && strings.HasSuffix(fn.Pkg().Path(), "/operationreport") {
 						if branch {
 							st.Set("E")
@@ -1362,6 +1375,30 @@ func checkParserProgress(r *fw.Run, rule string) {
 			}{{mustC, "C"}, {mustP, "P"}, {mustE, "E"}} {
 				if !s.m[fi.Obj] && exit.Must(s.f) {
 					s.m[fi.Obj] = true
+					changed = true
+				}
+			}
+			if sig := fi.Obj.Type().(*types.Signature); !falseE[fi.Obj] && sig.Results().Len() == 1 && types.Identical(sig.Results().At(0).Type(), types.Typ[types.Bool]) {
+				in3 := fw.NewInterp(fi)
+				h := hooks(fi, in3)
+				nFalse, allE := 0, true
+				h.Exit = func(ret *ast.ReturnStmt, lit *ast.FuncLit, st *fw.State) {
+					if lit != nil || ret == nil || !in3.Final() || len(ret.Results) != 1 {
+						return
+					}
+					if v, isConst := fw.ConstVal(info, ret.Results[0]); isConst && v == "false" {
+						nFalse++
+						if !st.Must("E") {
+							allE = false
+						}
+					} else if !isConst {
+						allE = false // a computed result may be false without a report
+					}
+				}
+				in3.H = h
+				in3.Run(nil)
+				if nFalse > 0 && allE {
+					falseE[fi.Obj] = true
 					changed = true
 				}
 			}
@@ -1982,4 +2019,213 @@ func c05SearchReturnsOnMatch(r *fw.Run) {
 		in.Run(nil)
 	}
 	r.Expect("C05-R10", "returns inside search loops of printer position helpers", n, 3)
+}
+
+// c05ParserRecursionIsBounded (R11): the parser is a recursive-descent parser; list types, list and object values and
+// selection sets nest without a grammatical bound, and every level is one Go call. Go's "stack overflow" is a fatal error,
+// not a panic: it cannot be recovered and ends the process (2-3 MB of '[' suffice, with or without token limits, which
+// count braces only). Totality therefore needs every cycle of the parser's call graph to pass through a depth guard:
+// a call of a Parser method that increments a counter field of the parser and compares it (> / >=) with a constant, whose
+// false result makes the caller return before it descends. The rule computes the strongly connected components of the
+// static call graph of package astparser and requires such a guarded member in every cyclic component, on every cycle:
+// removing the guarded functions must leave the component acyclic.
+func c05ParserRecursionIsBounded(r *fw.Run) {
+	p := r.Prog
+	r.Rule("C05-R11", "every cycle of the parser's static call graph passes through a function that enters a bounded nesting counter (increment + comparison with a constant) and returns when it refuses")
+	funcs := p.Funcs("astparser")
+	idx := map[*fw.FuncInfo]int{}
+	for i, fi := range funcs {
+		idx[fi] = i
+	}
+	// guards: methods that increment a receiver field and compare it with a constant by > or >=
+	isGuard := map[*fw.FuncInfo]bool{}
+	for _, fi := range funcs {
+		recv := receiverObj(fi)
+		if recv == nil {
+			continue
+		}
+		info := fi.Info()
+		sig := fi.Obj.Type().(*types.Signature)
+		if sig.Results().Len() != 1 || !types.Identical(sig.Results().At(0).Type(), types.Typ[types.Bool]) {
+			continue
+		}
+		var counter types.Object
+		fw.WalkAll(fi.Decl.Body, func(nd ast.Node) bool {
+			if inc, ok := nd.(*ast.IncDecStmt); ok && inc.Tok == token.INC {
+				if fv, sel := fw.Field(info, inc.X); fv != nil {
+					if id, isID := ast.Unparen(sel.X).(*ast.Ident); isID && info.ObjectOf(id) == recv {
+						counter = fv
+					}
+				}
+			}
+			return true
+		})
+		if counter == nil {
+			continue
+		}
+		bounded := false
+		fw.WalkAll(fi.Decl.Body, func(nd ast.Node) bool {
+			is, ok := nd.(*ast.IfStmt)
+			if !ok {
+				return true
+			}
+			a := fw.Atom(info, is.Cond, true)
+			if a.Kind != "Gt" && a.Kind != "Ge" {
+				return true
+			}
+			fv, _ := fw.Field(info, a.X)
+			_, isConst := fw.ConstVal(info, a.Y)
+			if fv != counter || !isConst {
+				return true
+			}
+			// the refusing branch returns false
+			for _, st := range is.Body.List {
+				if ret, isRet := st.(*ast.ReturnStmt); isRet && len(ret.Results) == 1 {
+					if v, c := fw.ConstVal(info, ret.Results[0]); c && v == "false" {
+						bounded = true
+					}
+				}
+			}
+			return true
+		})
+		if bounded {
+			isGuard[fi] = true
+		}
+	}
+	// guarded functions: `if !p.guard() { return … }` as the first statement that can descend (before any other call into the package)
+	guarded := map[*fw.FuncInfo]bool{}
+	for _, fi := range funcs {
+		info := fi.Info()
+		for _, st := range fi.Decl.Body.List {
+			is, ok := st.(*ast.IfStmt)
+			if ok && is.Init == nil {
+				a := fw.Atom(info, is.Cond, true)
+				if c, isCall := ast.Unparen(a.X).(*ast.CallExpr); isCall && a.Kind == "False" && isGuard[p.FuncOf(fw.Callee(info, c))] && len(is.Body.List) > 0 {
+					if _, isRet := is.Body.List[len(is.Body.List)-1].(*ast.ReturnStmt); isRet {
+						guarded[fi] = true
+					}
+				}
+				break
+			}
+			// anything else before the guard that calls into the package disqualifies
+			calls := false
+			fw.WalkAll(st, func(nd ast.Node) bool {
+				if c, isCall := nd.(*ast.CallExpr); isCall {
+					if callee := p.FuncOf(fw.Callee(info, c)); callee != nil {
+						if _, same := idx[callee]; same {
+							calls = true
+						}
+					}
+				}
+				return true
+			})
+			if calls {
+				break
+			}
+		}
+	}
+	// call graph without the guarded functions; any remaining cycle is unbounded recursion
+	adj := make([][]int, len(funcs))
+	for i, fi := range funcs {
+		info := fi.Info()
+		seen := map[int]bool{}
+		fw.WalkAll(fi.Decl.Body, func(nd ast.Node) bool {
+			if c, ok := nd.(*ast.CallExpr); ok {
+				if callee := p.FuncOf(fw.Callee(info, c)); callee != nil {
+					if j, same := idx[callee]; same && !seen[j] {
+						seen[j] = true
+						adj[i] = append(adj[i], j)
+					}
+				}
+			}
+			return true
+		})
+	}
+	// Tarjan
+	index, low, onStack := make([]int, len(funcs)), make([]int, len(funcs)), make([]bool, len(funcs))
+	for i := range index {
+		index[i] = -1
+	}
+	var stack []int
+	counter := 0
+	var sccs [][]int
+	var strong func(v int, skip map[int]bool)
+	strong = func(v int, skip map[int]bool) {
+		index[v], low[v] = counter, counter
+		counter++
+		stack = append(stack, v)
+		onStack[v] = true
+		for _, w := range adj[v] {
+			if skip[w] {
+				continue
+			}
+			if index[w] == -1 {
+				strong(w, skip)
+				low[v] = min(low[v], low[w])
+			} else if onStack[w] {
+				low[v] = min(low[v], index[w])
+			}
+		}
+		if low[v] == index[v] {
+			var comp []int
+			for {
+				w := stack[len(stack)-1]
+				stack = stack[:len(stack)-1]
+				onStack[w] = false
+				comp = append(comp, w)
+				if w == v {
+					break
+				}
+			}
+			selfLoop := false
+			for _, w := range adj[v] {
+				if w == v {
+					selfLoop = true
+				}
+			}
+			if len(comp) > 1 || selfLoop {
+				sccs = append(sccs, comp)
+			}
+		}
+	}
+	run := func(skip map[int]bool) [][]int {
+		for i := range index {
+			index[i] = -1
+			onStack[i] = false
+		}
+		stack, counter, sccs = nil, 0, nil
+		for v := range funcs {
+			if index[v] == -1 && !skip[v] {
+				strong(v, skip)
+			}
+		}
+		return sccs
+	}
+	all := run(map[int]bool{})
+	skip := map[int]bool{}
+	for fi := range guarded {
+		skip[idx[fi]] = true
+	}
+	rest := run(skip)
+	unbounded := map[int]bool{}
+	for _, comp := range rest {
+		for _, v := range comp {
+			unbounded[v] = true
+		}
+	}
+	n := 0
+	for _, comp := range all {
+		sort.Ints(comp)
+		var names, bad []string
+		for _, v := range comp {
+			names = append(names, funcs[v].Name())
+			if unbounded[v] {
+				bad = append(bad, funcs[v].Name())
+			}
+		}
+		n++
+		r.Check(len(bad) == 0, "C05-R11", "recursion-cycle-is-bounded:"+names[0], p.Pos(funcs[comp[0]].Decl.Pos()), "every cycle among "+strings.Join(names, ", ")+" passes a function that enters the bounded nesting counter first",
+			"the functions "+strings.Join(bad, ", ")+" can call each other (or themselves) without passing a nesting guard: the recursion depth follows the nesting of the input without bound, and a few megabytes of '[' or '{' end the process with a fatal stack overflow that cannot be recovered")
+	}
+	r.Expect("C05-R11", "cyclic components of the parser's call graph", n, 1)
 }
